@@ -384,7 +384,7 @@ def run_once(case, use_hooks=True, decide=None):
     exceeded = False
     try:
         with budget.steps(step_limit(case)) as b:
-            kw = {"assumptions": list(case["assumptions"]) or None, "max_conflicts": case["max_conflicts"],
+            kw = {"assumptions": (tuple(case["assumptions"]) if case.get("tuples") else list(case["assumptions"])) or None, "max_conflicts": case["max_conflicts"],
                   "max_restarts": case["max_restarts"], "solution_limit": case["solution_limit"], "luby_factor": case["luby_factor"]}
             if case.get("omit_defaults"):  # arguments that equal the documented defaults are left out: the defaults themselves run
                 for k, d in (("assumptions", None), ("max_conflicts", 100_000), ("max_restarts", 10_000), ("solution_limit", 1),
